@@ -8,7 +8,7 @@ def run(ctx):
     vh = vlib.build_vh()
     states, trans, detail = role1(ctx, [
         ("ModbusSession", "MC_ModbusSession_%s.cfg" % t, {"timeout": 3000}),
-    ])
+    ] + ([("ModbusSession", "MC_ModbusSession_quick.cfg", {"timeout": 3000})] if t == "thorough" else []))   # the top of the address space
     num = 150 if t == "quick" else 3000
     cases, n = generate(ctx, "ModbusSession", "Gen_ModbusSession.cfg", workers=1,
                         simulate=num, depth=30, seed=ctx.seed, timeout=3000)
